@@ -237,6 +237,17 @@ func checkC01(c *Ctx) {
 	c03QueueAnswered(c)
 	c15IDPresence(c)        // a request whose id is taken for absent is never answered
 	c17NoTransportReplay(c) // a request net/http may replay on its own reaches the handler twice
+	c01WriterSurvives(c)
+	// a response whose body is never closed pins its connection: with a bounded pool later calls get no answer at all
+	{
+		var cfns []*ssa.Function
+		for _, f := range c.P.LibFns {
+			if clientSide(c, f) {
+				cfns = append(cfns, f)
+			}
+		}
+		c08Bodies(c, cfns)
+	}
 	c05Pending(c)
 	c05PendingKey(c)
 	// the call's outcome is the server's answer, not what a notification handler returned (shared with C10)
@@ -718,5 +729,151 @@ func c01IDProvenance(c *Ctx, fresh bool) {
 		}
 		c.R.Check(bad == "", "R-one-answer", "answers built in "+fname(fn), c.Pos(fn.Pos()), sprintf("%d response-building sites, pairwise exclusive", len(sites)),
 			sprintf("%s: %s — one request can get two answers", fname(fn), bad))
+	}
+}
+
+// ---------------------------------------------------------------- R-writer-survives
+// On the queue-answering transports a stream has writer loops that drain the session's queues; when one of them is the
+// only way answers reach the peer, it must not end for a reason that has nothing to do with the stream. A message that
+// cannot be ENCODED is such a reason: the loop skips it (and logs). A `return` out of a queue-draining loop that is
+// controlled by the error of something which may be an encoding error (json.Marshal / Encoder.Encode, or a helper that
+// returns their error) ends the writer while the session lives on: every later call is accepted and never answered.
+func c01WriterSurvives(c *Ctx) {
+	mayEncodeErr := map[*ssa.Function]bool{}
+	isEncode := func(call *ssa.Call) bool {
+		n := ir.CallName(call)
+		return n == "encoding/json.Marshal" || n == "(*encoding/json.Encoder).Encode" || n == "encoding/json.MarshalIndent"
+	}
+	var encodeErr func(fn *ssa.Function, v ssa.Value, d int, seen map[ssa.Value]bool) bool
+	encodeErr = func(fn *ssa.Function, v ssa.Value, d int, seen map[ssa.Value]bool) bool {
+		if v == nil || d > 6 || seen[v] {
+			return false
+		}
+		seen[v] = true
+		switch x := v.(type) {
+		case *ssa.Extract:
+			if call, ok := x.Tuple.(*ssa.Call); ok {
+				if isEncode(call) {
+					return true
+				}
+				if sc := ir.StaticCallee(call); sc != nil && mayEncodeErr[sc] {
+					return true
+				}
+			}
+		case *ssa.Call:
+			if isEncode(x) {
+				return true
+			}
+			if sc := ir.StaticCallee(x); sc != nil && mayEncodeErr[sc] {
+				return true
+			}
+			if n := ir.CallName(x); n == "fmt.Errorf" || n == "errors.Join" {
+				for _, a := range x.Call.Args {
+					for _, e := range variadicElems(a) {
+						if encodeErr(fn, ir.Unwrap(e), d+1, seen) {
+							return true
+						}
+					}
+				}
+			}
+		case *ssa.Phi:
+			for _, e := range x.Edges {
+				if encodeErr(fn, e, d+1, seen) {
+					return true
+				}
+			}
+		case *ssa.MakeInterface:
+			return encodeErr(fn, x.X, d+1, seen)
+		case *ssa.ChangeInterface:
+			return encodeErr(fn, x.X, d+1, seen)
+		case *ssa.UnOp:
+			if u := unspill(x); u != ssa.Value(x) {
+				return encodeErr(fn, u, d+1, seen)
+			}
+		}
+		return false
+	}
+	for iter := 0; iter < 3; iter++ {
+		for _, fn := range c.P.LibFns {
+			if mayEncodeErr[fn] || clientSide(c, fn) {
+				continue
+			}
+			res := fn.Signature.Results()
+			if res.Len() == 0 || ir.TypeStr(res.At(res.Len()-1).Type()) != "error" {
+				continue
+			}
+			ir.EachInstr(fn, func(blk *ssa.BasicBlock, _ int, in ssa.Instruction) {
+				ret, ok := in.(*ssa.Return)
+				if !ok || blk == fn.Recover {
+					return
+				}
+				rs := ir.Results(ret)
+				if encodeErr(fn, rs[len(rs)-1], 0, map[ssa.Value]bool{}) {
+					mayEncodeErr[fn] = true
+				}
+			})
+		}
+	}
+	n := 0
+	for _, fn := range c.P.LibFns {
+		if clientSide(c, fn) {
+			continue
+		}
+		// queue-draining loops: a select (or receive) on a channel member inside a cycle
+		drains := false
+		ir.EachInstr(fn, func(b *ssa.BasicBlock, _ int, in ssa.Instruction) {
+			if !flow.InCycle(b) {
+				return
+			}
+			switch x := in.(type) {
+			case *ssa.Select:
+				for _, st := range x.States {
+					if st.Dir == types.RecvOnly {
+						if f, _, ok := ir.LoadedField(ir.Unwrap(st.Chan)); ok {
+							if _, isChan := f.Type.Underlying().(*types.Chan); isChan {
+								drains = true
+							}
+						}
+					}
+				}
+			case *ssa.UnOp:
+				if x.Op == token.ARROW {
+					if f, _, ok := ir.LoadedField(ir.Unwrap(x.X)); ok {
+						if _, isChan := f.Type.Underlying().(*types.Chan); isChan {
+							drains = true
+						}
+					}
+				}
+			}
+		})
+		if !drains {
+			continue
+		}
+		n++
+		pd := flow.NewPostDom(fn)
+		bad := ""
+		ir.EachInstr(fn, func(b *ssa.BasicBlock, _ int, in ssa.Instruction) {
+			ret, ok := in.(*ssa.Return)
+			if !ok || b == fn.Recover || bad != "" {
+				return
+			}
+			for _, g := range pd.ControlDepsTransitive(b) {
+				if !flow.InCycle(g.If.Block()) {
+					continue
+				}
+				v, op, ok := nilCompare(g.If.Cond)
+				if !ok || (op == token.NEQ) != g.Branch {
+					continue
+				}
+				if encodeErr(fn, v, 0, map[ssa.Value]bool{}) {
+					bad = c.Pos(ret.Pos())
+				}
+			}
+		})
+		c.R.Check(bad == "", "R-writer-survives", "queue-draining loop of "+fname(fn), c.Pos(fn.Pos()), "no return out of the loop is controlled by an encoding error",
+			sprintf("%s drains a session queue in a loop and returns (near %s) when something that may be an ENCODING error occurs (json.Marshal / Encode, or a helper returning their error): one unencodable message ends the writer of a stream that is still up, and every later answer queued for that session is never written", fname(fn), bad))
+	}
+	if n < 2 {
+		c.R.Break("R-writer-survives: only %d queue-draining loops found on the server side", n)
 	}
 }
